@@ -67,7 +67,7 @@ Qed.
 Print Assumptions unparsable_entry_no_line.
 
 Example list_line :
-  fst (run_oracle (print_trashinfo (mklist [] false false [] 0) ($"/vol") ($"/vol/.Trash-0/info/a.trashinfo"))
+  fst (run_oracle (print_trashinfo (mklist [] false false [] 0 None) ($"/vol") ($"/vol/.Trash-0/info/a.trashinfo"))
          [RStr ($"[Trash Info]" ++ [10] ++ $"Path=d/a%20b" ++ [10] ++ $"DeletionDate=2024-01-02T03:04:05" ++ [10])])
   = [(ReadText ($"/vol/.Trash-0/info/a.trashinfo"), RStr ($"[Trash Info]" ++ [10] ++ $"Path=d/a%20b" ++ [10] ++ $"DeletionDate=2024-01-02T03:04:05" ++ [10]));
      (Out false ($"2024-01-02 03:04:05 /vol/d/a b" ++ [10]), RUnit)].
